@@ -325,6 +325,20 @@ impl<'r, 'c, 's, W: Write> Serializer for DatumSerializer<'r, 'c, 's, W> {
 				self.serialize_str(variant)
 			}
 			SchemaNode::Union(union) => {
+				if let Some((discriminant, enum_node @ SchemaNode::Enum(_))) =
+					union.per_type_lookup.named(name)
+				{
+					// The Rust enum is named like an Avro enum of the union: that's the one
+					self.state
+						.writer
+						.write_varint(discriminant)
+						.map_err(SerError::io)?;
+					return (Self {
+						state: self.state,
+						schema_node: enum_node,
+					})
+					.serialize_unit_variant(name, variant_index, variant);
+				}
 				if variant == "Null" {
 					// Same as above: a unit variant named `Null` designates the `null` variant
 					// of the union if there is one (that's also how it gets deserialized)
